@@ -149,14 +149,15 @@ def check(repo: Repo, rep: Report) -> None:
     for name, steps in specs.items():
         m = repo.fn(SCH, f"Scheduler.{name}")
         v = m.params[1]
-        assigns = [s for s in sites(m) if isinstance(s.node, ast.Assign) and u(s.node.targets[0]) == v]
+        from ..rules import assigned_expr, assign_target
+        assigns = [s for s in sites(m) if assign_target(s.node) is not None and u(assign_target(s.node)) == v]
         got = []
         for s in assigns:
             g = None
             for e, p in s.ctx.guards:
                 if isinstance(e, ast.Call) and call_name(e) == "isinstance" and u(e.args[0]) == v:
                     g = ("" if p else "!") + u(e.args[1])
-            got.append((g, s.node.value))
+            got.append((g, assigned_expr(s.node)))
         ok = len(got) == len(steps) and all(g[0] == w[0] and w[1](g[1], v) for g, w in zip(got, steps))
         rep.ob("Z2-epoch", m, f"{name}: {[(g, u(e)) for g, e in got]}", ok,
                f"{name} does not convert through the single epoch UTC_ZERO with the inverse operation of its siblings "
